@@ -125,6 +125,7 @@ def check_text(v, impl, fmt, text, cen, fault):
 def run_case(case):
     dupnames = len(case) > 5 and case[5] is True
     first = len(case) > 5 and case[5] == "collector-first"
+    interrupted = len(case) > 5 and case[5] == "kbi"
     prog, cfg, faults, cleanups, hooks = case[:5]
     cfgd = dict(runcases.CFGS[cfg] if isinstance(cfg, str) else cfg)
     holder = {}
@@ -175,7 +176,7 @@ def run_case(case):
     feats = obs["model"][0]
     childless = "('S', (), ())" in repr(prog) or "('R', (), None, ())" in repr(prog) or ", ((), ()))" in repr(prog) \
         or "((), ()),)" in repr(prog)
-    if not dupnames and texts is None and not childless:     # childless elements: outside the roll-up statement (C03)
+    if not dupnames and texts is None and not childless and not interrupted:     # childless elements: outside the roll-up statement (C03)
         # execution-side truth: the census below walks the model AFTER the run; a defect in a lazy builder would
         # falsify the model and every summary of it consistently, so the model itself is first held against the
         # reference interpreter's prediction for this run (statuses of every element and step)
@@ -267,6 +268,25 @@ def cases(tier):
         yield case
 
 
+def interrupt_cases(tier):
+    """the user interrupts the run (KeyboardInterrupt) while a feature / rule / scenario / step / tag hook executes:
+    the run is aborted from inside a feature; the interrupted feature and all remaining ones must still be accounted
+    for (the statuses of the interrupted elements are whatever the model says afterwards: census oracle only)"""
+    quick = tier == "quick"
+    from vlib import refrun
+    shapes = [s for s in P.shapes(tier) if P.size(s) <= (3 if quick else 5) and len(s[3]) <= 2]
+    for si, shp in enumerate(shapes):
+        for v in (shp, runcases.retag(shp, (), (), "t"), runcases.retag(shp, (), (0,), "t")):
+            for prog in ((v, P.SECOND_FEATURE), (P.SECOND_FEATURE, v, P.SECOND_FEATURE)):
+                if quick and len(prog) == 3 and si % 3:
+                    continue
+                hooks_ = refrun.predict(prog, {}, hooks=True).hooks
+                for k, (name, ref) in enumerate(hooks_):
+                    if name in ("before_all", "after_all"):
+                        continue        # no summary is printed at all when the run is interrupted there
+                    yield (prog, "default", {k: "kbi"}, None, True, "kbi")
+
+
 def empty_container_cases(tier):
     """childless containers (legal Gherkin, and the summary must still count their siblings): a scenario without
     steps, an outline whose examples have no rows, a rule without scenarios - each followed by ordinary siblings"""
@@ -337,6 +357,8 @@ def run(ctx):
     ctx.sweep(run_case, cases(ctx.tier), chunk=32, name="runs x (reporter + walked collector) x 5 formats")
     ctx.sweep(run_case, empty_container_cases(ctx.tier), chunk=32, name="childless containers with siblings")
     ctx.sweep(run_case, dupname_cases(ctx.tier), chunk=32, name="identical titles on failing/erroring scenarios")
+    ctx.sweep(run_case, interrupt_cases(ctx.tier), chunk=32,
+              name="KeyboardInterrupt inside every feature/rule/scenario/step/tag hook invocation")
     ctx.sweep(run_case, collector_first_cases(ctx.tier), chunk=32,
               name="no reporter: a collector is the first reader of the model after the run")
     ctx.guard(len(ctx.outcomes) > 20, "at least 20 distinct status mixes")
